@@ -265,9 +265,9 @@ Section Core.
     intro Hl. unfold delattr_. fstep. fstep.
     fbindT; [fgo|]. intros _ _.
     destruct (if force then None else lookup_attr a1 a) as [sp|].
-    - fstep.
+    - fstep. fstep.
       + fbindT; [fprim|]. intros _ _. fbindT; [fgo; fprim|]. intros; fstep.
-      + fstep. apply mutate_attr_framed; auto.
+      + apply mutate_attr_framed; auto.
     - fbindT; [fprim|]. intros _ _. fbindT; [fgo; fprim|]. intros; fstep.
   Qed.
 
